@@ -34,6 +34,8 @@ class Acc:
             r = 0.0 if err == 0 else float("inf")
         else:
             r = float(err / tol)
+            if r != r:
+                r = float("inf")
         if name not in self.ratio or r > self.ratio[name]:
             self.ratio[name] = r
 
@@ -59,7 +61,10 @@ def lanes_of(ev):
     return n, lanes
 
 
-def parse_bc(ev, lane, ty):
+LONG_AXIS = 200  # above this many knots the reference is computed in 120-digit decimals
+
+
+def parse_bc(ev, lane, ty, N=F):
     b = ev["strategy"]["boundary"]
     if b == "Periodic":
         return "Periodic"
@@ -68,7 +73,7 @@ def parse_bc(ev, lane, ty):
     def one(s):
         if len(s) == 1:
             return (s[0], None)
-        return (s[0], F(X.dec(s[1], ty)))
+        return (s[0], N(X.dec(s[1], ty)))
     return (one(l), one(r))
 
 
@@ -126,12 +131,15 @@ def check_interp1(ev, acc):
                         nviol += 1
         return
     if kind == "spline":
-        xf = [F(v) for v in x]
-        qf = [F(v) for v in q]
+        N = F if n <= LONG_AXIS else X.D
+        if N is not F:
+            acc.count("long-axis-events-decimal-reference")
+        xf = [N(v) for v in x]
+        qf = [N(v) for v in q]
         extrap = ev["strategy"]["extrapolate"]
         for l in range(lanes):
-            yf = [F(v) for v in ycols[l]]
-            bc = parse_bc(ev, l, ty)
+            yf = [N(v) for v in ycols[l]]
+            bc = parse_bc(ev, l, ty, N)
             try:
                 M = X.spline_moments(xf, yf, bc)
             except X.Singular:
@@ -178,7 +186,7 @@ def wrap_periodic(xf, qf):
     """exact wrap of q into [x0, xn)"""
     x0, xn = xf[0], xf[-1]
     P = xn - x0
-    k = (qf - x0) // P
+    k = X.floor_div(qf - x0, P)
     return qf - k * P
 
 
@@ -191,13 +199,13 @@ def check_spline_values(ev, acc, prop, x, xf, yf, M, bc, q, qf, lane_res, tol0, 
         acc.values += 1
         qx = qf[k]
         inside = xf[0] <= qx <= xf[-1]
-        extra_tol = F(0)
+        extra_tol = qx * 0
         if not inside and periodic and extrap:
             w = wrap_periodic(xf, qx)
             if L is None:
                 L = X.spline_slope_bound(xf, yf, M)
             P = xf[-1] - xf[0]
-            delta = 4 * X.U[ty] * (abs(qx) + abs(xf[0]) + P)
+            delta = 4 * X.unit(ty, type(qx)) * (abs(qx) + abs(xf[0]) + P)
             # Lipschitz term. The crate's wrapped argument can differ from the exact wrap by
             # delta on the circle and may even land up to delta outside the range, where the
             # end cubic is continued: |S1| is bounded there by L + max|S2| delta + max|S3| delta^2
@@ -221,13 +229,14 @@ def check_spline_values(ev, acc, prop, x, xf, yf, M, bc, q, qf, lane_res, tol0, 
             name = "value" if inside else "value-extrapolated"
         tol = tol0 * amp + extra_tol
         if not X.is_finite(r):
-            if overflowish(exact, tol / X.U[ty], ty):
+            lim = 1e300 if ty == "f64" else 1e37
+            if abs(exact) + tol > lim:
                 acc.count("overflow-skipped")
             elif nv + nviol < MAX_VIOL_PER_EVENT:
                 viol(acc, ev, f"{prop}:value", f"non-finite result {r} for q={qq!r} lane {l}")
                 nviol += 1
             continue
-        err = abs(F(r) - exact)
+        err = abs(type(exact)(r) - exact)
         acc.ratio_upd(name, err, tol)
         if err > tol:
             if nv + nviol < MAX_VIOL_PER_EVENT:
@@ -257,7 +266,7 @@ def check_knots(ev, acc, prop, x, yf, q, lane_res, tol0, l, nv):
         if not X.is_finite(r):
             err, bad = None, True
         else:
-            err = abs(F(r) - yf[i])
+            err = abs(type(yf[i])(r) - yf[i])
             acc.ratio_upd("knot-reproduced", err, tol0)
             bad = err > tol0
         if bad and nv + nviol < MAX_VIOL_PER_EVENT:
@@ -278,9 +287,9 @@ def interval_samples(x, xf, q, qf, lane_res):
         if not X.is_finite(r):
             continue
         i = X.bracket(x, qq)
-        per[i][qf[k]] = F(r)
+        per[i][qf[k]] = type(qf[k])(r)
         if qq == x[i] and i > 0:
-            per[i - 1][qf[k]] = F(r)
+            per[i - 1][qf[k]] = type(qf[k])(r)
     return [sorted(d.items()) for d in per]
 
 
@@ -389,12 +398,12 @@ def check_bc(ev, acc, prop, x, xf, q, qf, lane_res, tol0, bc, l, nv):
             continue
         z = xf[0] if side == "left" else xf[-1]
         if kind in ("Natural", "SecondDeriv"):
-            target = F(0) if kind == "Natural" else val
+            target = z * 0 if kind == "Natural" else val
             d, w = deriv(fit, z, 2)
             report(f"{kind}-{side}", abs(d - target), tol0 * w,
                    f"S''({side} end)={float(d)!r}, required {float(target)!r}")
         elif kind in ("Clamped", "FirstDeriv"):
-            target = F(0) if kind == "Clamped" else val
+            target = z * 0 if kind == "Clamped" else val
             d, w = deriv(fit, z, 1)
             report(f"{kind}-{side}", abs(d - target), tol0 * w,
                    f"S'({side} end)={float(d)!r}, required {float(target)!r}")
@@ -420,7 +429,8 @@ def check_bc(ev, acc, prop, x, xf, q, qf, lane_res, tol0, bc, l, nv):
 
 def check_poly(ev, acc, prop, x, xf, q, qf, lane_res, tol0, l, nv):
     nviol = 0
-    coef = [F(X.dec(c, "f64")) for c in ev["poly"][l]]
+    N = type(qf[0])
+    coef = [N(X.dec(c, "f64")) for c in ev["poly"][l]]
     for k, qq in enumerate(q):
         r = lane_res[k]
         acc.values += 1
@@ -432,7 +442,7 @@ def check_poly(ev, acc, prop, x, xf, q, qf, lane_res, tol0, l, nv):
         exact = sum(c * qf[k] ** p for p, c in enumerate(coef))
         i = X.bracket(x, qq)
         tol = tol0 * X.t_amp(xf, i, qf[k])
-        err = abs(F(r) - exact)
+        err = abs(N(r) - exact)
         acc.ratio_upd("poly-spline", err, tol)
         if err > tol and nv + nviol < MAX_VIOL_PER_EVENT:
             viol(acc, ev, f"{prop}:poly",
